@@ -222,6 +222,27 @@ def run(rep, ctx):
                 tested = True
         p2.check(tested, "null-test", short_loc(call.get("l")),
                  "indirect call is control-dependent on the local being non-null")
+        other = []
+        exit_guards = set()
+        for n_ in h.walk():
+            if n_["k"] == "CallExpr" and n_.get("callee") in ("_exit", "_Exit"):
+                for (cid, pol) in h.cfg.facts_at(n_):
+                    exit_guards.add((cid, not pol))
+        for (cid, pol) in h.cfg.facts_at(call):
+            if (cid, pol) in exit_guards:
+                continue          # the complement of the condition under which the process terminates
+            c = strip(h.nodes[cid])
+            if c["k"] == "DeclRefExpr" and c.get("declId") == local:
+                continue
+            if c["k"] == "VarDecl" or any(x["k"] == "VarDecl" and x.get("declId") == local for x in walk(h.nodes[cid])):
+                continue
+            other.append(render(h.nodes[cid]))
+        exits_ = [n["i"] for n in h.walk() if n["k"] == "CallExpr" and n.get("callee") in ("_exit", "_Exit")]
+        skip = h.cfg.path_avoiding(None, "exit", [hl[0][0]["i"]] + exits_, from_entry=True)
+        p2.check(not other and skip is None, "callback-on-every-delivery", short_loc(call.get("l")),
+                 "every delivery that does not terminate the process loads handler_ and calls it if it is set (no other condition)",
+                 "the callback is %s: a signal delivered when that does not hold is counted but the callback registered at that moment is not invoked" %
+                 ("invoked only under `%s`" % "`, `".join(other) if other else "skipped on some surviving path"))
         okd = len(dl) == 1 and dl[0][2] == "load" and h.cfg.dominates(hl[0][0], dl[0][0]) \
             and any(x["i"] == dl[0][0]["i"] for a in call_args(call) for x in walk(a))
         p2.check(okd, "data-after-handler", short_loc(call.get("l")),
